@@ -406,6 +406,8 @@ func runC13(r *Run, verifDir string) {
 	r.Rule("C13.N4", "discovery is skipped when a version is enforced; constructors copy the enforced version", 2)
 	r.Rule("C13.N5", "every request is stamped with the adopted version; clones copy it", 2)
 	r.Rule("C13.N6", "no common version -> error, before any store", 1)
+	c13N7(r)
+	c13N8(r)
 	if nv == nil {
 		r.Unk("C13.N1", "kmipclient.Client.negotiateVersion", token.NoPos, "anchor missing")
 		return
@@ -833,4 +835,162 @@ func c13ClientListDescending(p *Program) string {
 		return "WithKmipVersions does not remove duplicates from the accumulated list"
 	}
 	return ""
+}
+
+// ---------------------------------------------------------------- C13.N7
+
+// c13N7: the discovery exchange itself must not depend on a version both sides happen to share: the client frames
+// the Discover Versions request with a fixed version, so the library's server must serve a discovery-only request
+// whatever version its header announces. Decided on BatchExecutor.handleRequest: the false edge of the membership
+// test of the header version leads to a discovery-only predicate whose true edge continues to the executor.
+func c13N7(r *Run) {
+	p := r.P
+	r.Rule("C13.N7", "version discovery does not need a shared version: the server answers a discovery-only request whatever its header version", 1)
+	key := "kmipserver.BatchExecutor.handleRequest/discovery-any-version"
+	hr := p.Func("kmipserver", "BatchExecutor", "handleRequest")
+	if hr == nil {
+		r.Unk("C13.N7", key, token.NoPos, "anchor missing")
+		return
+	}
+	reg := BuildRegistry(p)
+	found, bypass := false, false
+	allInstrs(hr, func(in ssa.Instruction) {
+		c, ok := in.(*ssa.Call)
+		if !ok {
+			return
+		}
+		id := callID(&c.Call)
+		if !(id.pkg == "slices" && id.name == "Contains" && len(c.Call.Args) == 2) {
+			return
+		}
+		u, ok := c.Call.Args[0].(*ssa.UnOp)
+		if !ok {
+			return
+		}
+		if _, fld, ok := fieldAddrOf(u.X); !ok || fname(fld) != "supportedVersions" {
+			return
+		}
+		found = true
+		for _, ref := range *c.Referrers() {
+			iff, ok := ref.(*ssa.If)
+			if !ok {
+				continue
+			}
+			fb := iff.Block().Succs[1]
+			if len(fb.Instrs) == 0 {
+				continue
+			}
+			if iff2, ok := fb.Instrs[len(fb.Instrs)-1].(*ssa.If); ok {
+				if pc, ok := iff2.Cond.(*ssa.Call); ok && pc.Call.StaticCallee() != nil && discoveryOnlyPredicate(pc.Call.StaticCallee(), reg) {
+					// the true edge must not be an error return
+					tb := fb.Succs[0]
+					isErr := false
+					for _, in2 := range tb.Instrs {
+						if ret, ok := in2.(*ssa.Return); ok && len(ret.Results) == 2 && !isNilConst(ret.Results[1]) {
+							isErr = true
+						}
+					}
+					if !isErr {
+						bypass = true
+					}
+				}
+			}
+		}
+	})
+	// which version does the client frame the discovery with? a constant => the bypass is required
+	switch {
+	case !found:
+		r.OK("C13.N7", key, hr.Pos(), "the server does not test the header version before dispatching: discovery is served for any version")
+	case bypass:
+		r.OK("C13.N7", key, hr.Pos(), "a request made of Discover Versions items only passes the header-version test whatever its version")
+	default:
+		r.Bad("C13.N7", key, hr.Pos(), "the server rejects a Discover Versions request whose header version is not in its supported set, while the client frames discovery with a fixed version: a client and a server that share versions but not that one (client {1.0} / server {1.0}, client {1.2..1.4} / server {1.2..1.4}) cannot negotiate")
+	}
+}
+
+// ---------------------------------------------------------------- C13.N8
+
+// c13N8: the configured set is the one the options built: the package's default version list flows into a
+// configured set (opts.supportedVersions / Client.supportedVersions) only under `len(<that set>) == 0`, i.e. only
+// when no version was configured. (WithKmipVersions appends: defaults seeded before the options would stay in the set.)
+func c13N8(r *Run) {
+	p := r.P
+	r.Rule("C13.N8", "the default version list is used only when no version was configured (len(configured) == 0)", 1)
+	defName := curVarName(cliPath, "supportedVersions")
+	n := 0
+	for _, fn := range pkgFuncs(p, "kmipclient") {
+		ord := 0
+		allInstrs(fn, func(in ssa.Instruction) {
+			ld, ok := in.(*ssa.UnOp)
+			if !ok || ld.Op != token.MUL {
+				return
+			}
+			g, ok := ld.X.(*ssa.Global)
+			if !ok || g.Name() != defName || g.Pkg == nil || g.Pkg.Pkg.Path() != cliPath {
+				return
+			}
+			// does the loaded default list flow into a supportedVersions field?
+			flows := false
+			seen := map[ssa.Value]bool{}
+			var walk func(v ssa.Value, d int)
+			walk = func(v ssa.Value, d int) {
+				if d > 6 || seen[v] {
+					return
+				}
+				seen[v] = true
+				for _, ref := range *v.Referrers() {
+					switch x := ref.(type) {
+					case *ssa.Store:
+						if _, fld, ok := fieldAddrOf(x.Addr); ok && fname(fld) == "supportedVersions" && x.Val == v {
+							flows = true
+						}
+					case *ssa.Call:
+						walk(x, d+1)
+					case *ssa.Slice:
+						walk(x, d+1)
+					case *ssa.Phi:
+						walk(x, d+1)
+					case *ssa.ChangeType:
+						walk(x, d+1)
+					}
+				}
+			}
+			walk(ld, 0)
+			if !flows {
+				return
+			}
+			n++
+			ord++
+			key := fmt.Sprintf("%s/default-versions#%d", fnKey(fn), ord)
+			guarded := false
+			for _, dc := range dominatingConds(ld.Block()) {
+				bo, ok := dc.cond.(*ssa.BinOp)
+				if !ok {
+					continue
+				}
+				y, isLen := lenOperand(bo.X)
+				if !isLen {
+					continue
+				}
+				if k, ok := constIntVal(bo.Y); !ok || k != 0 {
+					continue
+				}
+				u, ok := y.(*ssa.UnOp)
+				if !ok {
+					continue
+				}
+				if _, fld, ok := fieldAddrOf(u.X); ok && fname(fld) == "supportedVersions" && (bo.Op == token.EQL) == dc.outcome {
+					guarded = true
+				}
+			}
+			if guarded {
+				r.OK("C13.N8", key, ld.Pos(), "defaults applied under len(configured set) == 0")
+			} else {
+				r.Bad("C13.N8", key, ld.Pos(), "%s puts the default version list into the configured set without testing that the set is empty: WithKmipVersions appends, so a client restricted to some versions still offers and adopts all default versions (a version outside its configured set, or 1.0 as fallback when 1.0 was not configured)", fnKey(fn))
+			}
+		})
+	}
+	if n == 0 {
+		r.Unk("C13.N8", "kmipclient/default-versions", token.NoPos, "no use of the default version list found")
+	}
 }
